@@ -118,7 +118,7 @@ class Machine2:
     def __init__(self, bodies, srcroot):
         self.b=bodies; self.pc=[]; self.decisions=[]; self.dpos=0; self.solver=z3.Solver(); self.queries=0; self.steps=0
         self.parse_registry={}; self.events=[]
-        self.closures={}; self.impls={}
+        self.closures={}; self.impls={}; self.impl_list=[]
         for n,b in bodies.items():
             if b.kind!='fn': continue
             m=re.search(r'::\{closure#\d+\}$',n)
@@ -131,8 +131,27 @@ class Machine2:
                 try: src=open('/repo/'+f).read().split('\n')
                 except OSError: continue
                 hdr=' '.join(src[l1-1:l2])
+                c1=int(re.search(r'<impl at [^:]+:\d+:(\d+): \d+:(\d+)>',n).group(1)); c2=int(re.search(r'<impl at [^:]+:\d+:(\d+): \d+:(\d+)>',n).group(2))
+                if src[l1-1].lstrip().startswith('#[derive'):
+                    tr=src[l1-1][c1-1:c2-1]
+                    ty=None
+                    for k in range(l1,min(l1+6,len(src))):
+                        mt=re.search(r'(?:struct|enum)\s+(\w+)',src[k])
+                        if mt: ty=mt.group(1); break
+                    if ty: self.impl_list.append(((ty,meth,tr),b))
+                    continue
                 mm=re.search(r'impl(?:<[^>]*>)?\s+(?:([\w:]+)(?:<[^>]*>)?\s+for\s+)?([\w:]+)',hdr)
-                if mm: self.impls[(mm.group(2).split('::')[-1],meth,(mm.group(1) or '').split('::')[-1])]=b
+                if mm: self.impl_list.append(((mm.group(2).split('::')[-1],meth,(mm.group(1) or '').split('::')[-1]),b))
+    def _fill(self):
+        for k,b in self.impl_list: self.impls.setdefault(k,b)
+    def find_impl(self, ty_qual, meth, tr):
+        ty=re.sub(r'<.*','',ty_qual).split('::')[-1].lstrip('&')
+        c=[b for (k,b) in self.impl_list if k==(ty,meth,tr)]
+        if len(c)<=1: return c[0] if c else None
+        # disambiguate by module path overlap
+        mods=[x for x in re.sub(r'<.*','',ty_qual).split('::')[:-1]]
+        best=max(c,key=lambda b: sum(1 for mname in mods if mname in b.name))
+        return best
     def branch(self, cond):
         cond=z3.simplify(cond)
         if z3.is_true(cond): return True
@@ -211,8 +230,8 @@ class Machine2:
         if c in self.b and self.b[c].kind=='fn': return self.b[c]
         m=re.match(r"<(.+?) as (.+?)>::(\w+)$",c)
         if m:
-            ty=re.sub(r'<.*','',m.group(1)).split('::')[-1].lstrip('&'); tr=re.sub(r'<.*','',m.group(2)).split('::')[-1]
-            return self.impls.get((ty,m.group(3),tr))
+            tr=re.sub(r'<.*','',m.group(2)).split('::')[-1]
+            return self.find_impl(m.group(1),m.group(3),tr)
         m=re.match(r"([\w:]+)::(\w+)$",c)
         if m:
             ty=m.group(1).split('::')[-1]
@@ -556,7 +575,7 @@ def inflect(meth,s):
 if __name__=='__main__':
     bodies=M.parse_mir(open('/tmp/mirprobe/zeep.mir').read())
     load_source_types('/repo/zeep-lib/src')
-    m=Machine2(bodies,'/repo')
+    m=Machine2(bodies,'/repo'); m._fill()
     fname=sys.argv[1]; text=open(fname).read()
     fc=Adt('FileContent',0,[RString(text),Atomic(False)])
     files=Adt('Files',0,[PyMap()]); files.fields[0].entries.append([RString(fname.split('/')[-1]),fc])
